@@ -1,6 +1,8 @@
 """C04 — modified / valid / last-modified-time tell the truth for producers and consumers."""
 from __future__ import annotations
 
+import json
+
 from hypothesis import strategies as st
 
 from hgv import tsmodel as tm
@@ -31,13 +33,35 @@ def budget_s(tier):
 
 
 @st.composite
+def bundle_schema(draw, depth):
+    """bundles of scalars and bundles (optionally as list / dictionary elements): the positions whole-value writes populate"""
+    def tsb(d):
+        fields = []
+        for i in range(draw(st.integers(1, 3))):
+            fields.append((f"f{i}", tsb(d - 1) if d > 1 and draw(st.integers(0, 2)) == 0 else
+                           ("TS", draw(st.sampled_from(["int", "int", "str", "bool"])))))
+        return ("TSB", fields)
+    b = tsb(depth - 1)
+    wrap = draw(st.sampled_from(["none", "none", "none", "TSL", "TSD", "outer"]))
+    if wrap == "TSL":
+        return ("TSL", b, draw(st.integers(1, 3)))
+    if wrap == "TSD":
+        return ("TSD", "int", b)
+    if wrap == "outer":
+        return ("TSB", [("g0", ("TS", "int")), ("g1", b)])
+    return b
+
+
+@st.composite
 def case(draw, tier):
     big = tier == "thorough"
     kind = draw(st.integers(0, 9))
-    schema = ("SIGNAL",) if kind == 0 else ("TS", draw(st.sampled_from(["int", "str", "bool"]))) if kind == 1 else draw(tm.schemas(3))
+    schema = ("SIGNAL",) if kind == 0 else ("TS", draw(st.sampled_from(["int", "str", "bool"]))) if kind == 1 else \
+        draw(bundle_schema(3)) if kind in (2, 3) else draw(tm.schemas(3))
     start = draw(st.sampled_from([0, 0, 2, 40000]))
     horizon = draw(st.integers(3, 24 if big else 10))
-    opts = {"cancel": True, "multi": True, "no_rewrite": True, "inval": draw(st.booleans()), "keys": draw(st.sampled_from([4, 8]))}
+    opts = {"cancel": True, "multi": True, "no_rewrite": True, "inval": draw(st.booleans()), "keys": draw(st.sampled_from([4, 8])),
+            "whole": True}
     script = draw(tm.history(schema, start, horizon, opts, max_cycles=10 if big else 6))
     cons = []
     for _ in range(draw(st.integers(1, 3))):
@@ -248,6 +272,11 @@ def check(case, ctx) -> Result:
     depth = tm.schema_depth(schema)
     res.nontrivial = depth >= 2 and child_only and len(cons) >= 2 and silent_after_write
     res.labels.append("kind_" + schema[0])
+    flat = json.dumps(case["script"])
+    if '"setv"' in flat:
+        res.labels.append("whole_value_write")
+        if '"v": {}' in flat:
+            res.labels.append("whole_value_write_populating_nothing")
     if child_only:
         res.labels.append("child_only_write")
     if silent_after_write:
